@@ -150,7 +150,10 @@ def run_c19(tier, seed):
     wd = common.scratch()
     try:
         q = tier == "quick"
-        seqs = bq_tlc_sequences(150 if q else 2500, seed) + bq_random_sequences(40 if q else 1500, seed)
+        tlcseqs = bq_tlc_sequences(150 if q else 2500, seed)
+        import random as _r
+        _r.Random("c19/%s" % seed).shuffle(tlcseqs)
+        seqs = tlcseqs[:600 if q else 20000] + bq_random_sequences(40 if q else 1500, seed)
         inp = os.path.join(wd, "bq.in.ndjson")
         with open(inp, "w") as f:
             k = 0
